@@ -31,10 +31,10 @@ func TestTokenizer(t *testing.T) {
 		{`@media @ @-x @1`, `at-keyword(media) whitespace( ) delim(@) whitespace( ) at-keyword(-x) whitespace( ) delim(@) number(1)`},
 		{`#id #1 # #-`, `hash(id) whitespace( ) hash(1) whitespace( ) delim(#) whitespace( ) hash(-)`},
 		{`"a\"b" 'c"d'`, `string(a"b) whitespace( ) string(c"d)`},
-		{"\"a\nb", `bad-string(a) whitespace( ) ident(b)`},        // newline ends a string: bad-string, newline not consumed
-		{"\"a\\\nb\"", `string(ab)`},                               // escaped newline is a continuation
-		{`"abc`, `string(abc)!`},                                   // EOF in string: parse error, string returned
-		{`"a\`, `string(a)!`},                                      // backslash EOF inside string: nothing
+		{"\"a\nb", `bad-string(a) whitespace( ) ident(b)`}, // newline ends a string: bad-string, newline not consumed
+		{"\"a\\\nb\"", `string(ab)`}, // escaped newline is a continuation
+		{`"abc`, `string(abc)!`},     // EOF in string: parse error, string returned
+		{`"a\`, `string(a)!`},        // backslash EOF inside string: nothing
 		{`url(foo)`, `url(foo)`},
 		{`url(  foo  )`, `url(foo)`},
 		{`URL(foo)`, `url(foo)`},
@@ -46,13 +46,13 @@ func TestTokenizer(t *testing.T) {
 		{`url(a\)b)c`, `url(a)b) ident(c)`},
 		{`url(a\` + "\n" + `b)c`, `bad-url() ident(c)`},
 		{`url(abc`, `url(abc)!`},
-		{`url(a b\)c)d`, `bad-url() ident(d)`},                     // escaped ) inside bad-url remnants does not end it
+		{`url(a b\)c)d`, `bad-url() ident(d)`}, // escaped ) inside bad-url remnants does not end it
 		{`rgb(1,2%,3px)`, `function(rgb) number(1) comma(,) percentage(2%) comma(,) dimension(3px) )())`},
 		{`1e3 1e+3 1e 1.5 .5 +.5 1.`, `number(1e3) whitespace( ) number(1e+3) whitespace( ) dimension(1e) whitespace( ) number(1.5) whitespace( ) number(.5) whitespace( ) number(+.5) whitespace( ) number(1) delim(.)`},
 		{"a\r\nb\fc\rd", `ident(a) whitespace( ) ident(b) whitespace( ) ident(c) whitespace( ) ident(d)`},
 		{"a\x00b", "ident(a�b)"},
 		{`\0 \110000 \d800 x`, "ident(���x)"},
-		{"\\\n", "delim(\\) whitespace( )"},                        // backslash-newline is not a valid escape
+		{"\\\n", "delim(\\) whitespace( )"}, // backslash-newline is not a valid escape
 		{`{[()]}`, `{({) [([) ((() )()) ](]) }(})`},
 		{`a{b:c}`, `ident(a) {({) ident(b) colon(:) ident(c) }(})`},
 		{`é_1`, `ident(é_1)`},
@@ -108,17 +108,17 @@ func TestDeclarations(t *testing.T) {
 	for _, tc := range []struct{ in, want string }{
 		{`color:red;width : 1px ; `, `color=ident(red) | width=dimension(1px)`},
 		{`color:red !important`, `color=ident(red)!`},
-		{`color red; width:1px`, `width=dimension(1px)`},                     // no colon: dropped
-		{`-:red; width:1px`, `width=dimension(1px)`},                          // not an ident: skipped to ';'
+		{`color red; width:1px`, `width=dimension(1px)`}, // no colon: dropped
+		{`-:red; width:1px`, `width=dimension(1px)`},     // not an ident: skipped to ';'
 		{`a:b;;;c:d`, `a=ident(b) | c=ident(d)`},
-		{`a:(;);c:d`, `a=([semicolon(;)]true | c=ident(d)`},                  // ';' inside a block does not end the declaration
+		{`a:(;);c:d`, `a=([semicolon(;)]true | c=ident(d)`},                 // ';' inside a block does not end the declaration
 		{`a:f(;c:d`, `a=f([semicolon(;) ident(c) colon(:) ident(d)])false`}, // unclosed function swallows the rest
 		{`a:{x;y}z;c:d`, `a={[ident(x) semicolon(;) ident(y)]true ident(z) | c=ident(d)`},
 		{`@media x{a:b} c:d`, `@media | c=ident(d)`},
 		{`@import "x"; c:d`, `@import | c=ident(d)`},
 		{`a:"x;y";c:d`, `a=string(x;y) | c=ident(d)`},
 		{`a:url(x;y);c:d`, `a=url(x;y) | c=ident(d)`},
-		{`a:b}c:d`, `a=ident(b) }(}) ident(c) colon(:) ident(d)`},            // in a bare declaration list '}' is just a token
+		{`a:b}c:d`, `a=ident(b) }(}) ident(c) colon(:) ident(d)`}, // in a bare declaration list '}' is just a token
 	} {
 		got := items(ParseDeclarationList(ToCVs(Tokenize(tc.in).Tokens)))
 		if got != tc.want {
